@@ -783,3 +783,113 @@ def c15(tier):
     bounds = ("pipelines of 1-3 (thorough 4) stages over 5 stage shapes (1 job; 2 jobs in 2 batches; 2 jobs in 1 batch; 2-job chain; local), stage configs with and without their own submission groups, "
               "a failing job in stage 1, a duplicated stage-2 trigger at any later point; jade pipeline submit as the login process, next stages triggered by the real submit-next-stage; 1 preemption on <=2-stage pipelines (all in thorough) with the recovery actor on the current stage")
     return explore_check("C15", tier, tasks, S_RULE, COMMON_ASSUMPTIONS + ["auto-config commands are not explored (they write relative to the process cwd); stage config files only"], dict(bounds=bounds))
+
+
+# ------------------------------------------------------------------------------ mode F: C08, C10
+from . import modef  # noqa: E402
+
+F_RULE = ("each evaluation is one complete interleaving of small drivers calling the real component, with a scheduling point at every lock "
+          "acquire/release and every file operation on the shared directory (open, commit-at-close, remove, rename, listing, stat of lock/csv files); "
+          "enumerated depth-first by prefix replay with state caching; budget = preemptions (99 = unbounded: all interleavings)")
+F_ASSUMPTIONS = [
+    "write visibility: data of a text file opened for writing reaches the file at close() (buffered-writer model, DESIGN 1.2); a single small write is atomic",
+    "lock library behaviour never_break; filelock.SoftFileLock replaced by a model over the real marker file (jmc/vlock.py)",
+    "drivers are tiny by design; what they do is listed in coverage.bounds",
+]
+
+
+def f_task(id_, setup, drivers, oracle, budget, cls="F"):
+    sc = dict(setup=setup, drivers=drivers, level=3, jobs=[], groups=[], exit_codes={})
+    return dict(id=id_, scen=sc, oracles=[oracle], budget=budget, world="F", cls=cls)
+
+
+@check("C08")
+def c08(tier):
+    D = dict(A1=modef.A1, A2=modef.A2, R1=modef.R1, R2=modef.R2, RD=modef.RD, A3=modef.A3)
+    tasks = []
+    names = ["A1", "A2", "R1", "R2", "RD"]
+    for k in (2, 3):
+        for combo in itertools.combinations(names, k):
+            if not any(n.startswith("A") for n in combo) or not any(n.startswith("R") for n in combo):
+                continue
+            drv = [D[n] for n in combo]
+            if k == 2 or "A1" not in combo:
+                tasks.append(f_task("c08-" + "+".join(combo) + "-all", "results", drv, "C08", (99, 0)))
+            elif tier == "quick":
+                tasks.append(f_task("c08-" + "+".join(combo) + "-b3", "results", drv, "C08", (3, 0)))
+            else:
+                tasks += shard([f_task("c08-" + "+".join(combo) + "-all", "results", drv, "C08", (99, 0))], 8)
+    four = [D[n] for n in ("A1", "A2", "R1", "R2")]
+    if tier == "quick":
+        tasks += shard([f_task("c08-A1+A2+R1+R2-b2", "results", four, "C08", (2, 0))], 12)
+    else:
+        tasks += shard([f_task("c08-A1+A2+R1+R2-b3", "results", four, "C08", (3, 0))], 48)
+        tasks += shard([f_task("c08-A1+A3+R1-all", "results", [D["A1"], D["A3"], D["R1"]], "C08", (99, 0))], 8)
+        tasks += shard([f_task("c08-A1+A2+A3+R1+R2-b2", "results", four + [D["A3"]], "C08", (2, 0))], 32)
+        tasks += shard([f_task("c08-A1+A2+R1+R2+RD-b2", "results", four + [D["RD"]], "C08", (2, 0))], 32)
+    bounds = ("drivers: A1 appends 2 rows (one a node-level cancel) to batch 1's file, A2 1 row to batch 2's, A3 1 row to batch 1's (thorough), R1/R2 run process_results twice and append a submitter-level cancel, RD lists results; "
+              "every pair appender+collector and every 3-driver subset without A1 with unbounded budget (all interleavings); 3-driver subsets with A1 at " + ("3 preemptions" if tier == "quick" else "unbounded budget")
+              + "; all four at budget " + ("2" if tier == "quick" else "3; five drivers at budget 2"))
+    return explore_check("C08", tier, tasks, F_RULE, F_ASSUMPTIONS, dict(bounds=bounds))
+
+
+C10_CORE = ["D", "P", "p", "d", "usa", "uca", "m", "h"]
+C10_FULL = C10_CORE + ["g", "usc", "ucc"]
+
+
+def c10_sequences(alphabet, maxlen):
+    out = []
+    for first in ("D", "P"):
+        out.append((first,))
+        if maxlen >= 2:
+            for b in alphabet:
+                out.append((first, b))
+                if maxlen >= 3:
+                    for c in alphabet:
+                        out.append((first, b, c))
+    return out
+
+
+@check("C10")
+def c10(tier):
+    tasks = []
+    hosts = ["h1", "h2", "h1"]
+    if tier == "quick":
+        seqs = c10_sequences(C10_CORE, 2)
+        for i, s1 in enumerate(seqs):
+            for s2 in seqs[i:]:
+                for h2 in ("h2", "h1"):
+                    if h2 == "h1" and not ("d" in s1 + s2):
+                        continue
+                    drivers = [dict(name="H1", kind="handle", host="h1", ops=list(s1)),
+                               dict(name="H2", kind="handle", host=h2, ops=list(s2))]
+                    tasks.append(f_task(f"c10-{''.join(s1)}|{''.join(s2)}@{h2}", "cluster", drivers, "C10", (99, 0)))
+        for s in itertools.product(("D", "P"), repeat=3):
+            drivers = [dict(name=f"H{i + 1}", kind="handle", host=hosts[i], ops=[s[i]]) for i in range(3)]
+            tasks.append(f_task(f"c10-3x-{''.join(s)}", "cluster", drivers, "C10", (99, 0)))
+        for s in (("P", "d"), ("P", "usa"), ("D", "p")):
+            drivers = [dict(name=f"H{i + 1}", kind="handle", host=hosts[i], ops=list(s)) for i in range(3)]
+            tasks.append(f_task(f"c10-3x-{''.join(s)}", "cluster", drivers, "C10", (3, 0)))
+        bounds = "2 handles (hosts h1/h2 and h1/h1) x every pair of sequences of length <=2 over {D,P,p,d,us,uc,m,h} starting with a deserialize, all interleavings; 3 handles x length 1 all interleavings, 3 sequences of length 2 at budget 3"
+    else:
+        seqs = c10_sequences(C10_FULL, 2)
+        for i, s1 in enumerate(seqs):
+            for s2 in seqs[i:]:
+                for h2 in ("h2", "h1"):
+                    drivers = [dict(name="H1", kind="handle", host="h1", ops=list(s1)),
+                               dict(name="H2", kind="handle", host=h2, ops=list(s2))]
+                    tasks.append(f_task(f"c10-{''.join(s1)}|{''.join(s2)}@{h2}", "cluster", drivers, "C10", (99, 0)))
+        seqs3 = c10_sequences(C10_CORE, 3)
+        for i, s1 in enumerate(seqs3):
+            for s2 in seqs3[i::7]:
+                drivers = [dict(name="H1", kind="handle", host="h1", ops=list(s1)),
+                           dict(name="H2", kind="handle", host="h2", ops=list(s2))]
+                tasks.append(f_task(f"c10-{''.join(s1)}|{''.join(s2)}", "cluster", drivers, "C10", (3, 0)))
+        seqs2 = c10_sequences(C10_CORE, 2)
+        for s1 in seqs2[::2]:
+            for s2 in seqs2[::3]:
+                for s3 in seqs2[::5]:
+                    drivers = [dict(name=f"H{i + 1}", kind="handle", host=hosts[i], ops=list(s)) for i, s in enumerate((s1, s2, s3))]
+                    tasks.append(f_task(f"c10-3x-{''.join(s1)}|{''.join(s2)}|{''.join(s3)}", "cluster", drivers, "C10", (3, 0)))
+        bounds = "2 handles x every pair of sequences of length <=2 over the full alphabet {D,P,p,d,us(a|c),uc(a|c),m,h,g}, all interleavings; length 3 over the core alphabet (every 7th partner) at budget 3; 3 handles x length <=2 (subsample of partners, stated strides) at budget 3"
+    return explore_check("C10", tier, tasks, F_RULE, F_ASSUMPTIONS + ["reference for return values/final files: the same operations executed one at a time in lock-acquisition order by the real Cluster class (linearizability witness); mutual exclusion, promotion and stale-write clauses are independent of it"], dict(bounds=bounds))
